@@ -404,7 +404,12 @@ func genC09(sg structGen) func(g *Gen, tier string) *Case {
 			ops = append(ops, ops2...)
 			ops = append(ops, TL(TNi(opExport), TNi(2), TNi(e)), TL(TNi(opImport), TNi(0), TNi(e), TNi(1)))
 		}
+		// what the creating handle answers just before the second handle is attached: attaching is
+		// not an update, so none of these answers may change (ownUpdateMonitor)
+		qsub := g.R.Int63()
+		ops = append(ops, sg.queries(subGen(qsub), 0, pool)...)
 		ops = append(ops, TL(TNi(opAttach), TNi(1), TNi(0)))
+		ops = append(ops, sg.queries(subGen(qsub), 0, pool)...)
 		ops = append(ops, pairedQueries(sg, g, 0, 1, pool)...)
 		for k, n := 0, 1+g.Intn(5); k < n; k++ {
 			ops = append(ops, sg.extra(g, g.Intn(2), pool)...)
